@@ -397,22 +397,22 @@ impl FsCommand {
     pub fn execute(&self, should_lock: bool, log: &dyn Log) -> io::Result<FileLen> {
         match self {
             FsCommand::Remove { file } => {
-                let _ = Self::maybe_lock(&file.path, should_lock)?;
+                let _lock = Self::maybe_lock(&file.path, should_lock)?;
                 Self::remove(&file.path)?;
                 Ok(file.metadata.len())
             }
             FsCommand::SoftLink { target, link } => {
-                let _ = Self::maybe_lock(&link.path, should_lock)?;
+                let _lock = Self::maybe_lock(&link.path, should_lock)?;
                 Self::safe_remove(&link.path, |link| Self::symlink(&target.path, link), log)?;
                 Ok(link.metadata.len())
             }
             FsCommand::HardLink { target, link } => {
-                let _ = Self::maybe_lock(&link.path, should_lock)?;
+                let _lock = Self::maybe_lock(&link.path, should_lock)?;
                 Self::safe_remove(&link.path, |link| Self::hardlink(&target.path, link), log)?;
                 Ok(link.metadata.len())
             }
             FsCommand::RefLink { target, link } => {
-                let _ = Self::maybe_lock(&link.path, should_lock)?;
+                let _lock = Self::maybe_lock(&link.path, should_lock)?;
                 crate::reflink::reflink(target, link, log)?;
                 Ok(link.metadata.len())
             }
@@ -421,7 +421,7 @@ impl FsCommand {
                 target,
                 use_rename,
             } => {
-                let _ = Self::maybe_lock(&source.path, should_lock)?;
+                let _lock = Self::maybe_lock(&source.path, should_lock)?;
                 let len = source.metadata.len();
                 if *use_rename && Self::move_rename(&source.path, target).is_ok() {
                     return Ok(len);
